@@ -20,6 +20,10 @@ pub struct Gen {
     pub rejected: u64,
     /// why the model declined candidate statements (generation stops at the first one)
     pub declined: Vec<String>,
+    /// names written inside lambda bodies defined so far (they may run whenever something is called)
+    pub lambda_writes: std::collections::BTreeSet<String>,
+    /// one statement in `cancel_den` gets a one-shot cancellation (0 = never)
+    pub cancel_den: u32,
 }
 
 impl Drop for Gen {
@@ -51,6 +55,8 @@ impl Gen {
             nontrivial: false,
             rejected: 0,
             declined: Vec::new(),
+            lambda_writes: std::collections::BTreeSet::new(),
+            cancel_den: 0,
         }
     }
 
@@ -75,6 +81,7 @@ impl Gen {
             mode: crate::run::Mode::OutcomeOnly,
             no_raise,
             must_terminate,
+            hidden_state: false,
         });
     }
 
@@ -108,7 +115,12 @@ impl Gen {
 
     /// Try a candidate statement on the generator's model. Accept it (append to the script and keep
     /// the model's new state) unless the model declines to predict it. Returns the model outcome.
-    pub fn push(&mut self, kind: &str, ex: Ex, faults: Vec<Fault>) -> Result<Result<V, ()>, String> {
+    pub fn push(&mut self, kind: &str, ex: Ex, mut faults: Vec<Fault>) -> Result<Result<V, ()>, String> {
+        if self.cancel_den > 0 && faults.is_empty() && self.rng.chance(1, self.cancel_den) {
+            // F7: cancel the evaluation after a seed-chosen number of interpreter steps
+            let n = 1 + self.rng.below(40) as u64;
+            faults.push(Fault::Cancel(n));
+        }
         // apply faults to the generator's model the same way the executor will
         let saved_budget = self.model.out_budget;
         for f in &faults {
@@ -149,7 +161,22 @@ impl Gen {
                     mode: crate::run::Mode::Checked,
                     no_raise: false,
                     must_terminate: false,
+                    hidden_state: false,
                 });
+                self.lambda_writes.extend(crate::freevars::lambda_free_writes(&self.script.stmts.last().unwrap().ex));
+                // a cancellation needs the set of variables the statement may write
+                if self.script.stmts.last().unwrap().faults.iter().any(|f| matches!(f, Fault::Cancel(_))) {
+                    let ex = self.script.stmts.last().unwrap().ex.clone();
+                    let mut ws = crate::freevars::writes(&ex, false);
+                    if crate::freevars::contains_call(&ex) {
+                        ws.extend(self.lambda_writes.iter().cloned());
+                    }
+                    let top: Vec<String> = self.vars().into_iter().map(|(n, _)| n).collect();
+                    let hidden = ws.iter().any(|n| !top.contains(n));
+                    let st = self.script.stmts.last_mut().unwrap();
+                    st.write_set = ws.into_iter().collect();
+                    st.hidden_state = hidden;
+                }
                 Ok(match r {
                     Ok(v) => Ok(v),
                     Err(_) => Err(()),
